@@ -117,7 +117,7 @@ func ParseWriteMultipleCoilsRequestTCP(data []byte) (*WriteMultipleCoilsRequestT
 	var coilsData []byte
 	if coilsBytesCount > 0 {
 		coilsData = make([]byte, coilsBytesCount)
-		copy(coilsData, data[13:13+coilsBytesCount])
+		copy(coilsData, data[13:13+int(coilsBytesCount)])
 	}
 	return &WriteMultipleCoilsRequestTCP{
 		MBAPHeader: header,
@@ -199,7 +199,7 @@ func ParseWriteMultipleCoilsRequestRTU(data []byte) (*WriteMultipleCoilsRequestR
 	var coilsData []byte
 	if coilsBytesCount > 0 {
 		coilsData = make([]byte, coilsBytesCount)
-		copy(coilsData, data[7:7+coilsBytesCount])
+		copy(coilsData, data[7:7+int(coilsBytesCount)])
 	}
 	return &WriteMultipleCoilsRequestRTU{
 		WriteMultipleCoilsRequest: WriteMultipleCoilsRequest{
